@@ -8,6 +8,6 @@ D="$HERE/build/baseline${1:+_$1}"
 EXTRA=""
 [ "$1" = "utils" ] && EXTRA="-DENABLE_CJSON_UTILS=ON"
 rm -rf "$D"
-cmake -G Ninja -S "$REPO" -B "$D" -DCMAKE_BUILD_TYPE=RelWithDebInfo -DCMAKE_C_FLAGS=-Wno-error -DENABLE_LOCALES=ON $EXTRA >/dev/null
+cmake -Wno-deprecated -G Ninja -S "$REPO" -B "$D" -DCMAKE_BUILD_TYPE=RelWithDebInfo -DCMAKE_C_FLAGS=-Wno-error -DENABLE_LOCALES=ON $EXTRA >/dev/null
 cmake --build "$D" >/dev/null
 ctest --test-dir "$D" -j8 --timeout 900
